@@ -177,4 +177,23 @@ theorem sortWals_max (l : List Wal) (n : Nat) (v : List WBatch) (hnd : (l.map Pr
       simp only [List.filter_cons, this, if_true, sortWals]
       rw [ih hnd.2 hmem' hmax', insertWal_append_last _ _ _ hlt]
 
+/-- insertion sort only permutes: the file numbers of the sorted list are still unique -/
+theorem insertWal_perm (w : Wal) (xs : List Wal) : (insertWal w xs).Perm (w :: xs) := by
+  induction xs with
+  | nil => exact List.Perm.refl _
+  | cons y ys ih =>
+    by_cases h : w.1 < y.1
+    · rw [insertWal_cons_lt _ _ _ h]
+    · rw [insertWal_cons_ge _ _ _ h]
+      exact (List.Perm.cons y ih).trans (List.Perm.swap w y ys)
+
+theorem sortWals_perm (l : List Wal) : (sortWals l).Perm l := by
+  induction l with
+  | nil => exact List.Perm.refl _
+  | cons y ys ih => exact (insertWal_perm y _).trans (List.Perm.cons y ih)
+
+theorem nodup_keys_sortWals (l : List Wal) (h : (l.map Prod.fst).Nodup) :
+    ((sortWals l).map Prod.fst).Nodup :=
+  ((sortWals_perm l).map Prod.fst).nodup_iff.2 h
+
 end Rain.Durable.Lemmas
